@@ -11,8 +11,8 @@
     A_remove, A_push, A_add) in ANY interleaving; so every theorem below about "ALL schedules" covers
     histories with failed creations; [resolve s k] is what id [k] resolves to in the
     arena ([Arena::get]); [res_len] is what [num_*] reports; [res_try_reserve] is
-    [ResourceController::try_reserve].  ProofsInv.v: the structural invariant [Inv] and the queue
-    bound [QInv]; ProofsProps.v: [gone s k] = the slot of [k] has been freed since [k] was handed
+    [ResourceController::try_reserve].  ProofsInv.v: the structural invariant [Inv] (= [InvL] with an
+    empty list of leaked slots) and the queue bound [QInv]; ProofsProps.v: [gone s k] = the slot of [k] has been freed since [k] was handed
     out. *)
 From Coq Require Import Arith List Bool Permutation.
 From KV Require Import Base.Outcome C08.Model C08.ProofsBase C08.ProofsInv C08.ProofsRun C08.ProofsProps
@@ -37,7 +37,7 @@ Theorem res_invariant_inductive :
   forall (cf : cfg) (l : label) (s : state),
     Inv cf s -> QInv cf s ->
     exists s', step cf l s = Ok s' /\ Inv cf s' /\ QInv cf s'.
-Proof. exact step_ok. Qed.
+Proof. exact step_ok_base. Qed.
 
 (** The [is_full] guard of [SelfReferentialResourceStorage::remove_unused] never cuts a removal pass
     short (and [ResourceStorage]'s push never fails): whenever the audio thread is about to inspect a
@@ -218,6 +218,32 @@ Theorem no_leak_without_late_failure :
               (res_len (xs x) = cap cf -> res_try_reserve (st_ctl (xs x)) = Ok ArenaFull).
 Proof. exact no_leak_without_late_failure_proof. Qed.
 
+(** Exact accounting for ALL schedules of the extended system, failures after the reservation included
+    (any number of them, anywhere, in any interleaving with the audio thread): no step panics (no ring
+    overflows, no insertion fails); every such failure costs exactly ONE slot, for good — the count is
+    alive + queued + reserved-in-progress + leaked, it still equals keys handed out - slots freed and
+    never exceeds the capacity; [try_reserve] succeeds exactly when that count is below the capacity;
+    the leaked slots are distinct, never free, never in the arena and never in the new-queue (the audio
+    thread cannot see them, so no callback gives them back).  With [x_leaked = []] this is
+    [capacity_exact]. *)
+Theorem leak_accounting :
+  forall (cf : cfg) (xsched : list xlabel),
+    exists x, xrun cf xsched (xinit cf) = Ok x /\
+      res_capacity (xs x) = cap cf /\
+      res_len (xs x) = length (aorder (st_ar (xs x))) + length (st_newq (xs x))
+                       + length (gres (st_g (xs x))) + length (x_leaked x) /\
+      res_len (xs x) + st_removed (xs x) = st_created (xs x) /\
+      res_len (xs x) <= cap cf /\
+      (res_len (xs x) < cap cf ->
+         exists k c', res_try_reserve (st_ctl (xs x)) = Ok (Reserved k c') /\
+                      kidx k < cap cf /\ cfree (cs (xs x) (kidx k)) = true) /\
+      (res_len (xs x) = cap cf -> res_try_reserve (st_ctl (xs x)) = Ok ArenaFull) /\
+      NoDup (map kidx (x_leaked x)) /\
+      (forall k, In k (x_leaked x) ->
+                 kidx k < cap cf /\ cfree (cs (xs x) (kidx k)) = false /\
+                 ~ In (kidx k) (aorder (st_ar (xs x))) /\ (forall p, ~ In (k, p) (st_newq (xs x)))).
+Proof. exact leak_accounting_proof. Qed.
+
 (** Counter-model (class: a step [X_fail_late] in the schedule, i.e. reserve-then-fail without release;
     this is what the seeded change "reserve before [into_sound]" makes of every failed [play], and what
     the unchanged code does when user code unwinds between [try_reserve] and the push — table in
@@ -245,3 +271,17 @@ Theorem reserve_then_fail_refuted :
                  aorder (st_ar (xs x')) = [] /\ st_newq (xs x') = [] /\ st_g (xs x') = GIdle /\
                  res_len (xs x') = 2 /\ res_try_reserve (st_ctl (xs x')) = Ok ArenaFull).
 Proof. exact reserve_then_fail_refuted_proof. Qed.
+
+(** Non-vacuity of the theorems about failed creations: a run on a storage of capacity 1 with an
+    [into_sound] failure, two creations that fail with a payload already built, one successful creation
+    and one rejected by the limit — one resource is counted and resolves, the three other payloads were
+    dropped by the caller, and the schedule (lifted) meets the hypothesis of
+    [no_leak_without_late_failure]. *)
+Theorem example_failed_creations :
+  exists s, run ex_fail_cf ex_fail_sched (init ex_fail_cf) = Ok s /\
+            res_len s = 1 /\ st_created s = 1 /\ st_removed s = 0 /\
+            resolve s (mkKey 0 0) = Ok (Some 1) /\
+            st_destroyed s = [(3, Gameplay); (2, Gameplay); (0, Gameplay)] /\
+            res_try_reserve (st_ctl s) = Ok ArenaFull /\
+            no_late (map XL ex_fail_sched).
+Proof. exact ex_failed_creations. Qed.
